@@ -995,6 +995,7 @@ def wipe():
     import shutil
     for r in _roots().values():
         shutil.rmtree(r, ignore_errors=True)
+        shutil.rmtree(str(r) + "_volume", ignore_errors=True)
 
 
 def closure(leaves):
